@@ -27,7 +27,7 @@ def pattern(rx):
 
 
 def install(machine):
-    from . import core, strs, vecs, iters, fmt, maps, envs, paths, json, imara, fs, process  # noqa: F401
+    from . import core, strs, vecs, iters, fmt, maps, envs, paths, json, imara, fs, process, hashes  # noqa: F401
     machine.models.update(MODELS)
     machine.model_patterns.extend(PATTERNS)
     machine.crate_overrides.update(CRATE_OVERRIDES)
